@@ -183,6 +183,41 @@ def run(tier, seed):
                 t['soft'] = True
                 traces.append(t)
                 meta.append(dict(check='solve_soft', solver=str(solver), mip=mip, classes=''.join(sorted({r['cls'] for r in p['rows']})), prog=k, dup=p['dup']))
+    # call histories on ONE problem object: every response must satisfy the contract of the program as assembled, whatever was
+    # called before (relaxed and exact solves interleaved, solvers changed)
+    hist_progs = [(k, p) for k, p in enumerate(progs) if any(p['bools'])]
+    hist_progs = [kp for kp in hist_progs if kp[1].get('binding')] + [kp for kp in hist_progs if not kp[1].get('binding')][seed % 3::3]
+    for k, p in hist_progs[:40 if tier == 'quick' else 400]:
+        bools0 = list(p['bools'])
+        op = build_op(p)
+        for pos, (soft, solver) in enumerate([(True, 'SCIPY'), (False, 'SCIPY'), (True, None), (False, None), (False, 'SCIP')]):
+            chk.cnt['eval_optimize_calls'] += 1
+            chk.cnt['eval_history_calls'] += 1
+            try:
+                with quiet():
+                    kw = dict(make_soft_problem=True) if soft else {}
+                    res = op.optimize(solver=solver, **kw) if solver else op.optimize(**kw)
+            except Exception as e:
+                chk.cnt['optimize_raised_' + type(e).__name__] += 1
+                continue
+            t = outcome(dict(p, bools=bools0), res, solver)
+            t['soft'] = soft
+            traces.append(t)
+            meta.append(dict(check='solve_history', solver=str(solver), mip=True, classes=''.join(sorted({r['cls'] for r in p['rows']})), prog=k, dup=p['dup'],
+                             call=pos, soft=soft))
+    for k, p in [(k, p) for k, p in enumerate(progs) if not any(p['bools'])][seed % 4::4][:40 if tier == 'quick' else 400]:
+        op = build_op(p)
+        for pos, solver in enumerate(['SCIPY', None, 'SCIPY']):
+            chk.cnt['eval_optimize_calls'] += 1
+            chk.cnt['eval_history_calls'] += 1
+            try:
+                with quiet():
+                    res = op.optimize(solver=solver) if solver else op.optimize()
+            except Exception as e:
+                chk.cnt['optimize_raised_' + type(e).__name__] += 1
+                continue
+            traces.append(outcome(p, res, solver))
+            meta.append(dict(check='solve_history', solver=str(solver), mip=False, classes=''.join(sorted({r['cls'] for r in p['rows']})), prog=k, dup=p['dup'], call=pos, soft=False))
     # split problems: value = sum, x = concatenation (programs paired in order)
     lp = [p for p in progs if not any(p['bools']) and p['n'] <= 3 and brute(p) is not None]
     for a, b in zip(lp[0::2], lp[1::2]):
@@ -248,5 +283,5 @@ def run(tier, seed):
     chk.assumptions += ['programs with integral polytopes (interval rows, integer data) or integer variables only: optimality and infeasibility are decided exactly on the box lattice',
                         'ortools / CPLEX interfaces are not installed and not covered', 'a solver raising SolverError (non-MIP solver on a MIP) is neither a solution nor a failure report']
     return chk.finish(rule='tiny programs (2-4 variables): all subsets of 10 row templates up to size 4 (all containing the four row classes first), boolean flags '
-                           'incl. non-0/1 bounds, duplicated mapping rows before/after, infeasible ones; x every installed solver; split concatenation; '
+                           'incl. non-0/1 bounds, duplicated mapping rows before/after, infeasible ones; x every installed solver; relaxed solves; call histories on one object; split concatenation; '
                            'non-trivial = distinct (program, solver, response kind) accepted', exhaustive=False)
